@@ -18,6 +18,10 @@ TRUSTED_BASE = [
     "Rust harness avrodrive (schema construction from the case format; `mutseq` applies the edits of a history through nodes_mut())",
 ]
 ASSUMPTIONS = [
+    "families (e)-(g): the expected canonical form is the extracted PcfSpec.pcf of a DOCUMENT spelling the same schema with every definition before its uses (docgen.DocGen(forward=0) on the "
+    "generating graph; names there are specification fullnames, no leading dot) and the expected fingerprint the extracted CrcSpec checksum of it; that DocGen spells the graph it is given is "
+    "the generator's contract (the same generator is the one p_C07 checks against the built graph's fingerprint; a generator mistake shows as a violation on the unchanged crate); "
+    "how Name::from_fully_qualified_name splits `.Name` / `a.b.c.Name` is the model's Schema.name_of_fqn, compared on the very same harness line",
     "CrcSpec.v transcribes the fingerprint64/initFPTable pseudo-code of the Avro specification",
     "canonical form text of the model is tied to canonical_form.rs by differential testing, not by proof",
 ]
@@ -71,7 +75,7 @@ def random_edit(rng, nodes):
         if rng.random() < 0.6:
             new.size = old.size + rng.choice([1, 2, 7])
         else:
-            new.name = old.name + "_r"
+            new.name = rng.choice([old.name + "_r", "." + old.name.rpartition(".")[2] + "_n"])
     elif old.t == "enum":
         c = rng.random()
         if c < 0.4:
@@ -93,7 +97,7 @@ def random_edit(rng, nodes):
         elif c < 0.8 and old.fields:
             new.fields = [(old.fields[0][0] + "_", old.fields[0][1])] + old.fields[1:]
         else:
-            new.name = rng.choice([old.name + "_r", "moved." + old.name.rpartition(".")[2]])
+            new.name = rng.choice([old.name + "_r", "moved." + old.name.rpartition(".")[2], "." + old.name.rpartition(".")[2] + "_n", "a.b.c." + old.name.rpartition(".")[2]])
     elif old.t == "array":
         new.items = rng.randrange(n)
     elif old.t == "map":
@@ -139,6 +143,177 @@ def cases(rng, n):
         g = G.SchemaGen(rng, max_nodes=rng.choice([3, 8, 20]), max_depth=rng.choice([2, 4, 6]))
         out.append(G.schema_sx(g.build()))
     return out
+
+def dotted_spelling(rng, nodes, p=0.6):
+    """the same graph with the names of null-namespace named nodes spelled `.Name` (leading dot = the null namespace, the spelling
+    Name::from_fully_qualified_name documents), with probability p each -> (nodes', number of names respelled)"""
+    out, k = [], 0
+    for x in nodes:
+        y = copy_node(x)
+        if y.t in ("record", "enum", "fixed") and "." not in y.name and rng.random() < p:
+            y.name = "." + y.name
+            k += 1
+        out.append(y)
+    return out, k
+
+DEEP_NSS = [None, None, "a.b.c", "a.b", "org.example.deep.ns", "a"]
+
+def name_families(ctx, rng, violations, diffs, distinct, dist):
+    """(e) forward references, (f) names as the builder API takes them, (g) shared unnamed nodes -- see the rule text"""
+    import docgen as D
+    quick = ctx["tier"] == "quick"
+    evals = 0
+    # ---- (e) documents with use before definition, in particular pending references with the same text for different fullnames:
+    #      the fingerprint is the extracted CRC of the extracted PcfSpec.pcf of the forward-reference-free spelling of the same
+    #      schema, the canonical form is that pcf, two spellings agree; node vector / canonical form / fingerprint model vs crate
+    cases = []
+    while len(cases) < (300 if quick else 10000):
+        if rng.random() < 0.6:
+            nodes = D.forward_twins(rng)
+        else:
+            nodes = D.NameGraphGen(rng, logical=True).build()
+        dg = None
+        for attempt in range(4):
+            dg = D.DocGen(rng, nodes, forward=rng.choice([0.5, 0.8, 1.0]), extras=rng.choice([0.0, 0.3]))
+            doc = dg.gen(0, None)
+            if set(dg.occ) == dg.defined:
+                break
+        else:
+            continue
+        ref_doc = D.DocGen(rng, nodes, forward=0.0, extras=0.0).gen(0, None)
+        cases.append((nodes, doc, ref_doc, dg.has_forward, D.same_text_forward_refs(dg)))
+    texts = [D.to_text(c[1], rng) for c in cases]
+    impl = C.run_parallel(C.AVRODRIVE, ["parse " + C.hx(t) for t in texts])
+    model = C.run_parallel(C.AVROMODEL, ["parse " + D.to_sx(D.norm_numbers(c[1])) for c in cases])
+    refm = C.run_parallel(C.AVROMODEL, ["parse " + D.to_sx(c[2]) for c in cases])
+    pcfs = [C.parse_sx(r)[0] for r in refm]
+    want = C.run_parallel(C.AVROMODEL, ["rabin " + (p[5] if p[0] == "ok" else "x") for p in pcfs])
+    for (nodes, doc, ref_doc, fwd, same), text, ri, rm, pr, rw in zip(cases, texts, impl, model, pcfs, want):
+        line = "parse " + C.hx(text)
+        evals += 1
+        pi, pm = C.parse_sx(ri)[0] if ri.startswith("(") else ["crash"], C.parse_sx(rm)[0]
+        dist["documents/" + ("forward-refs" if fwd else "definition-first") + ("/same-text-different-targets" if same else "")] += 1
+        if pr[0] != "ok":
+            diffs.append({"impl_case": line, "model_case": "parse " + D.to_sx(ref_doc), "impl": ri[:300], "model": "reference spelling rejected by the model"})
+            continue
+        if pi[0] != "ok":
+            violations.append({"impl_case": line, "what": "a valid document (definitions after their uses) was rejected: %s" % ri[:200], "document": text[:800]})
+            continue
+        distinct.add(pr[5])
+        exp = C.parse_sx(rw)[0][2]
+        if pi[2] != pr[5] or pi[3] != exp:
+            violations.append({"impl_case": line, "what": "fingerprint / canonical form of a document with forward references is not the CRC-64-AVRO / "
+                               "the specification's Parsing Canonical Form of the same schema spelled with every definition first",
+                               "document": text[:800], "fingerprint": pi[3], "expected": exp,
+                               "crate_canonical_form": C.unhex(pi[2]).decode("utf-8", "replace")[:500],
+                               "spec_canonical_form": C.unhex(pr[5]).decode("utf-8", "replace")[:500]})
+        if pm[0] != "ok" or C.show_sx(pi[1]) != C.show_sx(pm[1]) or pi[2] != pm[2] or pi[3] != pm[3]:
+            diffs.append({"impl_case": line, "model_case": "parse " + D.to_sx(D.norm_numbers(doc)), "impl": ri[:500], "model": rm[:500]})
+    # ---- (f) graphs BUILT through the public API with names as Name::from_fully_qualified_name takes them: `.Name` (leading dot =
+    #      null namespace) and namespaces of several components. Expected: the extracted CRC of PcfSpec.pcf of a document spelling the
+    #      same schema (names there: fullnames per the specification, no leading dot); the model (Schema.name_of_fqn) on the very
+    #      same harness line; the JSON the built schema reports, parsed again, has the same fingerprint
+    built = []
+    while len(built) < (300 if quick else 10000):
+        r = rng.random()
+        if r < 0.5:
+            nodes = D.NameGraphGen(rng, nss=list(dict.fromkeys(rng.sample(DEEP_NSS, rng.choice([2, 3, 4])))), logical=True).build()
+        elif r < 0.6:
+            nodes = D.forward_twins(rng)
+        elif r < 0.75:
+            nodes = [G.Node(rng.choice(["fixed", "enum"]), name=rng.choice(["Item", "a.b.c.Item", "x.Item", "I"]), size=rng.randint(0, 40), symbols=["A"])]
+            if nodes[0].t == "enum":
+                nodes[0].size = None
+            else:
+                nodes[0].symbols = None
+        else:
+            nodes = G.SchemaGen(rng, max_nodes=rng.choice([3, 8, 16]), max_depth=rng.choice([2, 4]),
+                                namespaces=rng.choice([("",), ("", "a.b.c"), ("", "ns", "org.example.deep")])).build()
+        spelled, k = dotted_spelling(rng, nodes, rng.choice([0.5, 1.0]))
+        try:
+            doc = D.DocGen(rng, nodes, forward=0.0, extras=0.0).gen(0, None)
+        except D.Unspellable:
+            continue
+        built.append((nodes, spelled, k, doc))
+    blines = ["mutseq " + G.schema_sx(b[1]) + " fp json freeze" for b in built]
+    bi = C.run_parallel(C.AVRODRIVE, blines)
+    bm_fp = C.run_parallel(C.AVROMODEL, ["fp " + G.schema_sx(b[1]) for b in built])
+    bm_fz = C.run_parallel(C.AVROMODEL, ["freeze " + G.schema_sx(b[1]) for b in built])
+    bspec = [C.parse_sx(r)[0] for r in C.run_parallel(C.AVROMODEL, ["parse " + D.to_sx(b[3]) for b in built])]
+    bwant = C.run_parallel(C.AVROMODEL, ["rabin " + (p[5] if p[0] == "ok" else "x") for p in bspec])
+    reparse_lines, reparse_at = [], []
+    for (nodes, spelled, k, doc), line, ri, mfp, mfz, ps, rw in zip(built, blines, bi, bm_fp, bm_fz, bspec, bwant):
+        evals += 1
+        dist["built/" + ("leading-dot-names" if k else "plain-names")] += 1
+        pi = C.parse_sx(ri)[0] if ri.startswith("(") else ["crash"]
+        pf, pz = C.parse_sx(mfp)[0], C.parse_sx(mfz)[0]
+        if pi[0] != "ok" or len(pi) != 4 or pi[1][0] != "fp" or pi[3][0] != "frozen" or pi[2][0] != "json":
+            if pf[0] == "ok" and ps[0] == "ok":
+                violations.append({"impl_case": line, "what": "a valid schema built through from_nodes (names given to Name::from_fully_qualified_name) "
+                                   "has no fingerprint / does not freeze: %s" % ri[:200]})
+            continue
+        if ps[0] != "ok":
+            continue
+        distinct.add(ps[5])
+        exp = C.parse_sx(rw)[0][2]
+        got_fp, got_cf = pi[1][1], pi[1][2]
+        if got_cf != ps[5] or got_fp != exp or pi[3][1] != exp:
+            violations.append({"impl_case": line, "what": "fingerprint / canonical form of a schema built through the API is not the CRC-64-AVRO / "
+                               "Parsing Canonical Form of the schema (PcfSpec.pcf of a document spelling the same schema)",
+                               "fingerprint": got_fp, "frozen_fingerprint": pi[3][1], "expected": exp,
+                               "crate_canonical_form": C.unhex(got_cf).decode("utf-8", "replace")[:500],
+                               "spec_canonical_form": C.unhex(ps[5]).decode("utf-8", "replace")[:500]})
+        if pf[0] != "ok" or pf[1] != got_fp or pf[2] != got_cf:
+            diffs.append({"impl_case": line, "model_case": "fp " + G.schema_sx(spelled), "impl": C.show_sx(pi[1])[:400], "model": mfp[:400]})
+        if pz[0] == "ok" and (pz[2] != pi[2][1] or pz[2] != pi[3][2]):
+            diffs.append({"impl_case": line, "model_case": "freeze " + G.schema_sx(spelled), "impl": C.show_sx(pi[2])[:400], "model": mfz[:400]})
+        reparse_lines.append("parse " + pi[2][1]); reparse_at.append((line, got_fp, pi[2][1]))
+    for (line, fp0, js), rr in zip(reparse_at, C.run_parallel(C.AVRODRIVE, reparse_lines)):
+        pr = C.parse_sx(rr)[0] if rr.startswith("(") else ["crash"]
+        if pr[0] != "ok" or pr[3] != fp0:
+            violations.append({"impl_case": line, "what": "the JSON a built schema reports does not parse back to a schema with the same fingerprint",
+                               "json": C.unhex(js).decode("utf-8", "replace")[:500], "fingerprint": fp0, "reparsed": rr[:200]})
+    # ---- (g) node vectors with SHARED unnamed nodes (one union / array / map node referenced from several places, also from inside
+    #      the record it leads to): the canonical form is that of the schema = PcfSpec.pcf of its document (where every occurrence is
+    #      written out), permutations of the node vector included
+    sh = []
+    for _ in range(300 if quick else 10000):
+        nodes = D.shared_wrapper_graph(rng)
+        re_entered = D.has_reentered_wrapper(nodes)
+        doc = D.DocGen(rng, nodes, forward=0.0, extras=0.0).gen(0, None)
+        if rng.random() < 0.4:
+            nodes = D.permute(rng, nodes)
+        if rng.random() < 0.3:
+            nodes, _ = dotted_spelling(rng, nodes)
+        sh.append((nodes, doc, re_entered))
+    slines = ["mutseq " + G.schema_sx(b[0]) + " fp freeze" for b in sh]
+    si = C.run_parallel(C.AVRODRIVE, slines)
+    sm = C.run_parallel(C.AVROMODEL, ["fp " + G.schema_sx(b[0]) for b in sh])
+    sspec = [C.parse_sx(r)[0] for r in C.run_parallel(C.AVROMODEL, ["parse " + D.to_sx(b[1]) for b in sh])]
+    swant = C.run_parallel(C.AVROMODEL, ["rabin " + (p[5] if p[0] == "ok" else "x") for p in sspec])
+    for (nodes, doc, re_entered), line, ri, mfp, ps, rw in zip(sh, slines, si, sm, sspec, swant):
+        evals += 1
+        dist["shared-unnamed-node/" + ("re-entered-after-a-named-record" if re_entered else "not-re-entered")] += 1
+        pi = C.parse_sx(ri)[0] if ri.startswith("(") else ["crash"]
+        pf = C.parse_sx(mfp)[0]
+        if ps[0] != "ok":
+            diffs.append({"impl_case": line, "model_case": "parse " + D.to_sx(doc), "impl": ri[:200], "model": "the document of the graph is rejected by the model"})
+            continue
+        exp = C.parse_sx(rw)[0][2]
+        ok = pi[0] == "ok" and len(pi) == 3 and pi[1][0] == "fp" and pi[2][0] == "frozen"
+        if not ok:
+            violations.append({"impl_case": line, "what": "a valid schema whose node vector shares an unnamed node (union / array / map referenced from "
+                               "several places, every cycle going through a named record) has no canonical form / fingerprint or does not freeze: %s" % ri[:300],
+                               "spec_canonical_form": C.unhex(ps[5]).decode("utf-8", "replace")[:500]})
+            continue
+        distinct.add(ps[5])
+        if pi[1][2] != ps[5] or pi[1][1] != exp or pi[2][1] != exp:
+            violations.append({"impl_case": line, "what": "fingerprint / canonical form of a node vector with a shared unnamed node is not that of the schema",
+                               "fingerprint": pi[1][1], "expected": exp, "crate_canonical_form": C.unhex(pi[1][2]).decode("utf-8", "replace")[:500],
+                               "spec_canonical_form": C.unhex(ps[5]).decode("utf-8", "replace")[:500]})
+        if pf[0] != "ok" or pf[1] != pi[1][1] or pf[2] != pi[1][2]:
+            diffs.append({"impl_case": line, "model_case": "fp " + G.schema_sx(nodes), "impl": C.show_sx(pi[1])[:400], "model": mfp[:400]})
+    return evals
 
 def run(ctx):
     rng = random.Random(ctx["seed"] * 1000003 + 8)
@@ -304,8 +479,12 @@ def run(ctx):
         if exp != got[1]:
             violations.append({"impl_case": line, "what": "fingerprint observed at step %d of a history differs from le64(crc64_avro(canonical form reported at the same step))" % step,
                                "fingerprint": got[1], "expected": exp, "canonical_form": C.unhex(got[2]).decode("utf-8", "replace")[:400]})
+    from collections import Counter
+    dist = Counter()
+    extra = name_families(ctx, rng, violations, diffs, distinct, dist)
     return {
-        "evaluations": len(lines) + 2 * len(docs) + nobs,
+        "distribution": dict(dist),
+        "evaluations": len(lines) + 2 * len(docs) + nobs + extra,
         "distinct_nontrivial": len(distinct),
         "rule": "node graphs (arbitrary UTF-8 names in fixed nodes; random valid schemas with sharing and logical types); "
                 "distinct = distinct canonical form texts accepted by the crate; each compared (a) fingerprint and text "
@@ -313,7 +492,14 @@ def run(ctx):
                 "random spellings each: fingerprint = extracted CRC of the extracted PcfSpec.pcf of the document (independent of the crate's "
                 "traversal), equal for both spellings; (d) histories on one SchemaMut value (built or parsed): fingerprint + canonical form, JSON, freeze "
                 "observed before and after edits through nodes_mut() (sizes, symbols, names, fields, element keys, pushes), no-op nodes_mut() and "
-                "clones: every observation = the model's value for the graph at that point, fingerprint = extracted CRC of the text reported there",
+                "clones: every observation = the model's value for the graph at that point, fingerprint = extracted CRC of the text reported there; "
+                "(e) documents with use before definition (docgen.forward_twins: one simple name in several namespaces, each referred to by its short spelling "
+                "from inside its namespace before any definition; NameGraphGen): canonical form / fingerprint = extracted PcfSpec.pcf / CRC of the "
+                "definition-first spelling, node vector model vs crate; (f) graphs built through from_nodes with names spelled `.Name` and with "
+                "namespaces of several components: canonical form / fingerprint = extracted PcfSpec.pcf / CRC of a document spelling the same schema, "
+                "= the model's (Schema.name_of_fqn) on the same line, reported JSON parses back to the same fingerprint; edits of histories also rename to `.Name`; "
+                "(g) node vectors with shared unnamed nodes (docgen.shared_wrapper_graph: the wrapper a recursive record recurses through is the node it is reached through from outside), "
+                "permuted: canonical form / fingerprint = PcfSpec.pcf / CRC of the schema's document, freeze succeeds",
         "samples": samples,
         "violations": violations,
         "model_diffs": diffs,
